@@ -51,7 +51,7 @@ def real_split_stage(ctx, pid):
         for sc in scs:
             f.write(json.dumps(sc) + "\n")
     out = os.path.join(ctx.scratch, "c01_split_trace.ndjson")
-    rc, txt = ctx.run_bin(binary, "^TestVerifC01Split$", env={"VERIF_CASES": cases, "VERIF_OUT": out}, timeout=600)
+    rc, txt = ctx.run_bin(binary, "^TestVerifC01Split$", env={"VERIF_CASES": cases, "VERIF_OUT": out}, timeout=1800)
     if rc != 0 or not os.path.exists(out):
         crash = core.classify_crash(txt)
         if crash is None:
@@ -74,24 +74,24 @@ def run(ctx, pid=PID, families=(("commit", 120, 600), ("retry", 60, 300)), mutan
     import os
     dev = os.environ.get("VERIF_DEV_SKIP_DESIGN") == "1"     # development aid for mutation testing only
     if not dev:
-      ctx.tlc_expect_ok("Pipeline", "Pipeline_base.cfg", timeout=1500, deadlock=False,
+      ctx.tlc_expect_ok("Pipeline", "Pipeline_base.cfg", timeout=4500, deadlock=False,
                       overrides={"MaxId": "4"} if thorough else None, name="Pipeline/base")
-      ctx.tlc_expect_ok("Pipeline", "Pipeline_base.cfg", timeout=1500, deadlock=False,
+      ctx.tlc_expect_ok("Pipeline", "Pipeline_base.cfg", timeout=4500, deadlock=False,
                       overrides={"Classes": '{"P", "H", "C"}', "Strs": '{"a"}', "MaxId": "4" if thorough else "3"}, name="Pipeline/hold")
-      ctx.tlc_expect_ok("Pipeline", "Pipeline_base.cfg", timeout=1500, deadlock=False,
+      ctx.tlc_expect_ok("Pipeline", "Pipeline_base.cfg", timeout=4500, deadlock=False,
                       overrides={"Classes": '{"N", "H", "C", "P"}', "Strs": '{"a"}', "MaxId": "4" if thorough else "3"}, name="Pipeline/hold-selective")
-      ctx.tlc_expect_ok("Pipeline", "Pipeline_res.cfg", timeout=1500, deadlock=False,
+      ctx.tlc_expect_ok("Pipeline", "Pipeline_res.cfg", timeout=4500, deadlock=False,
                       overrides={"HasDQ": "TRUE", "MaxFails": "2", "Classes": '{"P"}', "Strs": '{"a"}',
                                  "MaxId": "4" if thorough else "3"}, name="Pipeline/dq-residual")
-      ctx.tlc_expect_ok("Pipeline", "Pipeline_base.cfg", timeout=1500, deadlock=False,
+      ctx.tlc_expect_ok("Pipeline", "Pipeline_base.cfg", timeout=4500, deadlock=False,
                       overrides=dict(core.SPLIT, BatchCount="1") if thorough else dict(core.SPLIT), name="Pipeline/split")
       if thorough:
-          ctx.tlc_expect_ok("Pipeline", "Pipeline_base.cfg", timeout=1500, deadlock=False, overrides=dict(core.SPLIT), name="Pipeline/split-batch2")
-      ctx.tlc_expect_ok("Pipeline", "Pipeline_res.cfg", timeout=1500, deadlock=False,
+          ctx.tlc_expect_ok("Pipeline", "Pipeline_base.cfg", timeout=4500, deadlock=False, overrides=dict(core.SPLIT), name="Pipeline/split-batch2")
+      ctx.tlc_expect_ok("Pipeline", "Pipeline_res.cfg", timeout=4500, deadlock=False,
                       overrides=dict(core.SPLIT, HasDQ="TRUE", MaxFails="2", MaxId="24" if thorough else "22"), name="Pipeline/split-dq-residual")
-      ctx.tlc_expect_ok("Pipeline", "Pipeline_base.cfg", timeout=1500, deadlock=False,
+      ctx.tlc_expect_ok("Pipeline", "Pipeline_base.cfg", timeout=4500, deadlock=False,
                       overrides=dict(core.SPLIT, Classes='{"P", "Y", "H"}'), name="Pipeline/split-held-child")
-    d2 = ctx.tlc("Pipeline", "Pipeline_d2.cfg", timeout=900, deadlock=False,
+    d2 = ctx.tlc("Pipeline", "Pipeline_d2.cfg", timeout=2700, deadlock=False,
                  overrides={"HasDQ": "TRUE", "MaxFails": "2", "Classes": '{"P"}', "Strs": '{"a"}'}, name="Pipeline/dq-D2")
     if d2.ok:
         raise vlib.Infra("design model no longer reproduces known finding D2; specification is stale")
